@@ -94,6 +94,18 @@ LAWS = [
     ("k * x / 4000000000.0", "must"),
     ("k * x * 1e-12", "must"),
     ("k * x * True", "refuse"),
+    # two-argument functions whose MathML namesakes mean something else (rem is the floored modulo, ...)
+    ("k * math.remainder(x, y)", "refuse"),
+    ("k * math.fmod(x, y)", "refuse"),
+    ("k * numpy.remainder(x, y)", "refuse"),
+    ("k * numpy.mod(x, y)", "refuse"),
+    ("k * math.hypot(x, y)", "refuse"),
+    ("k * math.copysign(x, -y)", "refuse"),
+    ("k * math.ldexp(x, 2)", "refuse"),
+    ("math.log(x + 1.0, y + 1.0)", "refuse"),
+    ("k * divmod(x, y)[0]", "refuse"),
+    ("k * round(x)", "refuse"),
+    ("k * math.trunc(x + 0.5)", "refuse"),
 ]
 BODIES = [  # multi-statement bodies: outside the single-expression subset
     ("t = k * x\n    return t + y", "refuse"),
@@ -112,7 +124,7 @@ NAMES = {
 COEFS = ["one", "two", "half", "neghalf", "pname", "pcomp", "ncomp"]
 DERIVED = ["none", "dpar", "dvar", "coef2"]
 IAS = ["none", "var", "par"]
-STATES = [[0.5, 2.0], [2.0, 0.5], [1.0, 1.0], [3.0, 1.5]]
+STATES = [[0.5, 2.0], [2.0, 0.5], [1.0, 1.0], [3.0, 1.5], [2.5, 4.0], [0.25, 3.0]]  # incl. x mod y >= y / 2
 
 HELPERS = '''
 import math
